@@ -78,8 +78,8 @@ SAN = " || thorough tier: the same workloads under ThreadSanitizer / AddressSani
 
 PLAN = {
     "C01": dict(
-        stages=[ls("C01"), ho("C01")],
-        rule=LS + " || " + HO,
+        stages=[ls("C01"), ho("C01"), ga()],
+        rule=LS + " || " + HO + " || " + GA + " (after each race four more admissions under tight capacity: what is resident must still fit)",
         clauses=["policy observer log replayed step by step (emitted under the policy lock): used == sum of per-key charges at every add/update/remove/clear; "
                  "oversize never admitted; every admission of a new key leaves used <= max_cost; victims' costs == their charges; update delta == new - old; "
                  "update_max_cost in effect for every later add; max_cost() == last value stored",
